@@ -705,6 +705,7 @@ type modTarget struct {
 	freshOnly bool // mem, root unknown: only arrays allocated after allocMark may change
 	allocMark *Term
 	name string
+	local *LocalLoc // kind "local": a caller's local variable (or a field of it) reached through a pointer
 }
 
 type leafKey struct {
@@ -807,6 +808,10 @@ func (e *Exec) modTarget(env *SpecEnv, it *SExpr) []modTarget {
 		}
 		return []modTarget{t}
 	}
+	if ll, ok := loc.(*LocalLoc); ok {
+		// the pointer given by the caller points at one of its locals: the callee may change that local
+		return []modTarget{{kind: "local", local: ll}}
+	}
 	env.fail(it, "modifies item does not denote a heap or memory location")
 	return nil
 }
@@ -875,6 +880,12 @@ func (e *Exec) pointeeLoc(env *SpecEnv, it *SExpr, v Value) (Loc, types.Type) {
 
 func (e *Exec) havocTargets(st *State, ts []modTarget) {
 	for _, t := range ts {
+		if t.kind == "local" && t.local != nil {
+			if _, bound := st.store[t.local.Cell]; bound {
+				e.storeLoc(st, t.local, e.symbolicValue(st, t.local.ltype(), "lv"))
+			}
+			continue
+		}
 		for _, k := range t.keys {
 			switch t.kind {
 			case "heap":
@@ -959,6 +970,36 @@ func (e *Exec) evalBuiltin(st *State, name string, call *ast.CallExpr) Value {
 			e.storeLoc(st, &HeapLoc{Fam: heapFamily(t), Ref: ref, Typ: t}, e.zeroValue(st, t))
 		}
 		return Scalar{ref, rt}
+	case "clear":
+		// clear(slice): every element becomes the zero value, nothing else changes
+		v := e.eval(st, call.Args[0])
+		sv, ok := toSlice(v)
+		if !ok {
+			panic(unsupported("clear of " + info.TypeOf(call.Args[0]).String()))
+		}
+		et := sv.Typ.Underlying().(*types.Slice).Elem()
+		var ls []leaf
+		leavesOf(et, "", &ls)
+		for _, l := range ls {
+			var z *Term
+			switch l.Sort.Kind {
+			case KInt:
+				z = tZero
+			case KBool:
+				z = tFalse
+			default:
+				z = e.strLit("")
+			}
+			key := memFamily(et) + l.Path
+			m := st.memMap(key, l.Sort)
+			oldInner := mkSelect(m, sv.Arr)
+			inner := e.nm.fresh("cleared", SArray(l.Sort))
+			k := mkVar("k!c", SInt)
+			in := mkAnd(mkLe(sv.Off, k), mkLt(k, mkAdd(sv.Off, sv.Len)))
+			st.assume(mkForall([]*Term{k}, mkEq(mkSelect(inner, k), mkIte(in, z, mkSelect(oldInner, k))), mkSelect(inner, k)))
+			st.mem[key] = mkStore(m, sv.Arr, inner)
+		}
+		return TupleVal{}
 	case "make":
 		t := info.TypeOf(call.Args[0])
 		sl, ok := t.Underlying().(*types.Slice)
